@@ -152,6 +152,10 @@ func (zns *ZnPMServer) StartMaster(connUrl string, cfg ZnPMServerConfig) error {
 	//// read named pipe data to recv msg from child process
 	go zns.readNamedPipe(p)
 
+	// reserve the initial processes before any of them exists, the same way every later
+	// spawn batch reserves its processes in refCount before starting them
+	zns.refCount = cfg.InitProcs
+
 	//// maintain child state (DO NOT UPDATE child data directly!)
 	go zns.maintainChildState(cfg, ln, p)
 
@@ -256,8 +260,10 @@ func (zns *ZnPMServer) maintainChildState(cfg ZnPMServerConfig, ln *net.TCPListe
 	for {
 		select {
 		case aw := <-zns.addChan:
+			// refCount already counts this process: it was reserved when the spawn was scheduled.
+			// (Overwriting it with len(childs) here dropped the slots still reserved by unfinished
+			// spawn batches, so a later batch could push the pool above MaxProcs.)
 			zns.childs[aw.pid] = aw
-			zns.refCount = len(zns.childs)
 		case uw := <-zns.updateChan:
 			if oldState, ok := zns.childs[uw.pid]; ok {
 				zns.childs[uw.pid] = workerState{
